@@ -520,3 +520,61 @@ Example json_params_example :
   let ps := [("x", [J.PKey "a"; J.PIdx 1; J.PKey "q"]); ("y", [J.PKey "a"]); ("app", [J.PKey "missing"]); ("z", [J.PKey "s"])] in
   J.json_params ps doc = [("x", "v")] /\ map (fun a => J.jlookup doc (snd a)) ps = [Some "v"; None; None; None].
 Proof. vm_compute. split; reflexivity. Qed.
+
+(* ---- round 4: the json / logfmt stages' own code against definitions by value (proofs/InternalJsonProofs.v) ---- *)
+From Qryn Require proofs.InternalJsonProofs.
+Module JP := InternalJsonProofs.
+
+(* sanitizeLabel -- Go's regexp walks the name rune by rune; the model follows utf8.DecodeRune's byte-range table -- names a
+   label as the definition by VALUE does (RFC 3629: the code point computed from the payload bits; a sequence is a character
+   only in its shortest form, outside the surrogates, up to U+10FFFF; any other byte is one invalid character): ONE "_" per
+   character outside [a-zA-Z0-9_], whatever the number of bytes that encode it.  For every byte string. *)
+Theorem sanitize_one_underscore_per_character : forall s, J.sanitize s = J.label_name s.
+Proof. exact JP.sanitize_one_underscore_per_character. Qed.
+Print Assumptions sanitize_one_underscore_per_character.
+
+(* `| json` is the declarative flattening, for every value tree: every scalar leaf of the document, in document order, is
+   assigned under "the names of the members that lead to it joined with _" named by value; a later leaf of the same name
+   wins; arrays have no leaves; a document that is not an object is refused *)
+Theorem json_all_is_the_flattening : forall v, J.json_all v = J.json_all_ref v.
+Proof. exact JP.json_all_is_the_flattening. Qed.
+Print Assumptions json_all_is_the_flattening.
+
+(* `| json l1="path1", l2="path2", ...` with distinct label names, for every value tree (any nesting, duplicate members,
+   arrays, paths that share prefixes, stop early or run past the document): the ONE pass jsonPathProcessor makes over the
+   document with the set of paths still ahead assigns to every label exactly what following ITS path alone finds (jlookup:
+   at an object the last member of that name under which the rest is found, at an array the item of that index), and
+   assigns no other label *)
+Theorem walk_is_jlookup : forall v ps l, NoDup (map fst ps) ->
+  JP.lfind (J.json_params ps v) l = match JP.pfind ps l with Some p => J.jlookup v p | None => None end.
+Proof. exact JP.walk_is_jlookup. Qed.
+Print Assumptions walk_is_jlookup.
+
+(* the same in the form the check evaluates on the implementation's observations: the specification oracle accepts what the
+   model assigns, so a row the oracle rejects is a behaviour the model does not have *)
+Theorem json_params_meets_the_oracle : forall v ps i, NoDup (map fst ps) ->
+  J.j_spec_violation {| J.j_id := i; J.j_spec := J.JsonParams ps; J.j_tree := Some v; J.j_obs := J.json_params ps v |} = false.
+Proof. exact JP.json_params_meets_the_oracle. Qed.
+Print Assumptions json_params_meets_the_oracle.
+
+Theorem json_all_meets_the_oracle : forall v i,
+  J.j_spec_violation {| J.j_id := i; J.j_spec := J.JsonAll; J.j_tree := Some v;
+                        J.j_obs := match J.json_all v with Some m => m | None => [] end |} = false.
+Proof. exact JP.json_all_meets_the_oracle. Qed.
+Print Assumptions json_all_meets_the_oracle.
+
+(* HandleLogfmt of `| logfmt`: every pair of the line under the name by value, a later pair of the same name wins *)
+Theorem logfmt_names_by_value : forall pairs, J.logfmt_all pairs = J.logfmt_all_ref pairs.
+Proof. exact JP.logfmt_names_by_value. Qed.
+Print Assumptions logfmt_names_by_value.
+
+(* hypotheses met / the statements are not vacuous: two paths that share a prefix and a duplicate member *)
+Example walk_is_jlookup_hypotheses_met :
+  let doc := J.JObj [("a", J.JObj [("b", J.JRaw "1")]); ("a", J.JObj [("c", J.JStr "2")]); ("a", J.JArr [J.JStr "3"])] in
+  let ps := [("x", [J.PKey "a"; J.PKey "b"]); ("y", [J.PKey "a"; J.PKey "c"]); ("z", [J.PKey "a"; J.PIdx 0]); ("w", [J.PKey "a"])] in
+  NoDup (map fst ps) /\ J.json_params ps doc = [("x", "1"); ("y", "2"); ("z", "3")] /\
+  map (fun a => J.jlookup doc (snd a)) ps = [Some "1"; Some "2"; Some "3"; None].
+Proof.
+  cbn zeta. split; [|split; vm_compute; reflexivity].
+  repeat constructor; cbn; intuition discriminate.
+Qed.
